@@ -40,6 +40,8 @@ pub fn validate_entire_schema<TCompilationProfile: CompilationProfile>(
 
     errors.extend(validate_selection_sets(db));
 
+    errors.extend(validate_no_cyclic_client_selectables(db));
+
     maybe_extend(
         &mut errors,
         validate_all_server_selectables_point_to_defined_types(db),
@@ -204,6 +206,70 @@ fn validate_scalar_selectable_directive_sets<TCompilationProfile: CompilationPro
             None
         })
         .collect()
+}
+
+/// A client field that selects itself, directly or through other client fields (with or without
+/// @loadable), cannot be compiled: merging its selection set does not terminate.
+fn validate_no_cyclic_client_selectables<TCompilationProfile: CompilationProfile>(
+    db: &IsographDatabase<TCompilationProfile>,
+) -> Vec<Diagnostic> {
+    type Key = (
+        common_lang_types::EntityName,
+        common_lang_types::SelectableName,
+    );
+    let Ok(client_selectables) = deprecated_client_selectable_map(db) else {
+        return vec![];
+    };
+    // client selectable -> the client selectables it selects
+    let mut selects: std::collections::BTreeMap<Key, BTreeSet<Key>> = Default::default();
+    for key in client_selectables.keys() {
+        let selected = selects.entry(*key).or_default();
+        let (Ok(selection_set), Some(parent_entity)) = (
+            crate::selectable_reader_selection_set(db, key.0, key.1),
+            flattened_entity_named(db, key.0),
+        ) else {
+            continue;
+        };
+        crate::visit_selection_set::visit_selection_set(
+            db,
+            selection_set.lookup(db).item.selections.reference(),
+            parent_entity.lookup(db),
+            &mut |selection, parent_entity| {
+                let name = match selection {
+                    SelectionType::Scalar(s) => s.name.item,
+                    SelectionType::Object(o) => o.name.item,
+                };
+                if let Ok(Some(DefinitionLocation::Client(_))) =
+                    crate::selectable_named(db, parent_entity.name.item, name)
+                {
+                    selected.insert((parent_entity.name.item, name));
+                }
+            },
+        );
+    }
+
+    let mut errors = vec![];
+    for start in selects.keys() {
+        let mut reachable = BTreeSet::new();
+        let mut to_visit = vec![*start];
+        while let Some(key) = to_visit.pop() {
+            for next in selects.get(&key).into_iter().flatten() {
+                if reachable.insert(*next) {
+                    to_visit.push(*next);
+                }
+            }
+        }
+        if reachable.contains(start) {
+            errors.push(Diagnostic::new(
+                format!(
+                    "`{}.{}` selects itself, directly or through other client fields.",
+                    start.0, start.1
+                ),
+                Location::Generated.wrap_some(),
+            ));
+        }
+    }
+    errors
 }
 
 /// Validate selectables:
